@@ -32,6 +32,11 @@ def run(ck, ctx):
     ck.rule("R02.7", "batched pipelines pair every reply with its own request: each key of the batch is pushed into its shard's bucket on "
                      "every path of the bucketing loop, and the positional result vector is only written from shard responses - never read "
                      "back to fill another slot")
+    ck.rule("R02.8", "slot hand-off protocol (no lost wake-up, no stale reply): ResponseSlot::send stores the value before it wakes the "
+                     "waiter and does both under one lock acquisition; ResponseFuture::poll checks for the value and parks its waker "
+                     "inside one critical section (a value stored between an unlocked check and the parking would never wake the "
+                     "requester) and returns Ready only with the value taken out of the slot; ResponseSlot::reset empties the value; "
+                     "a slot is pushed into the pool only fresh or after reset")
     ck.nd("the linearizability verdict over interleavings (tokio scheduler and mpsc FIFO order are trusted)")
     ck.nd("Lua script atomicity beyond 'runs inside one handler'")
     for cfg in ctx.configs:
@@ -45,6 +50,7 @@ def run(ck, ctx):
         _r025(ck, prog, cfg)
         _r026(ck, prog, cfg)
         _r027(ck, prog, cfg)
+        _r028(ck, prog, cfg)
 
 
 PROD_PREFIXES = ("src/production/", "src/bin/", "src/redis/executor/", "src/streaming/", "src/replication/")
@@ -171,6 +177,23 @@ def _r023(ck, prog, cfg):
     ck.rule("R03.1", "routing functions agree (shared with C03)")
 
 
+def _root_type(f, s):
+    """declared type of the named variable a path source is rooted in (upvars of a coroutine carry their type in the name table)"""
+    for n in f.names:
+        if n["n"] != s.root:
+            continue
+        pl = n["pl"]
+        if pl.get("p"):
+            t = pl["p"][-1].get("t")
+            if t:
+                return t
+        elif pl["l"] < len(f.locals):
+            return f.locals[pl["l"]]
+    if s.local is not None and s.local < len(f.locals):
+        return f.locals[s.local]
+    return None
+
+
 def _r024(ck, prog, cfg):
     n = 0
     m0 = sum(1 for f in prog.lib_fns() if f.file.startswith("src/production/") for _, t in f.calls() if is_callee(t, r"ResponsePool::<.*>::release$"))
@@ -227,6 +250,13 @@ def _r024(ck, prog, cfg):
                 if c is not None and c.d.get("impl_self", "").split("<")[0] in dropper_types and not is_callee(s.term, r"Option::<.*>::take$"):
                     bad = True
                     why = "the slot is borrowed from a `%s` (via %s) that keeps owning it while the reply is awaited" % (c.d.get("impl_self", "").split("<")[0].rsplit("::", 1)[-1], c.short)
+            if s.kind == "path" and s.fields and not bad:
+                # the slot is read out of a field of a value that stays alive (and releases on Drop) while the reply is awaited
+                ty = _root_type(f, s)
+                if ty and ty.replace("&mut ", "").lstrip("&").split("<")[0] in dropper_types:
+                    bad = True
+                    why = "the slot is a clone of field `%s` of a `%s` that keeps owning it while the reply is awaited" % (
+                        ".".join(s.fields), ty.split("<")[0].rsplit("::", 1)[-1])
             fid = re.sub(r"\{closure#\d+\}", "{closure}", f.id.replace("production::", ""))
             ck.check(not bad, "R02.4", "%s:await-without-releasing-owner%s" % (fid, _tag(cfg)),
                      "%s: if the request future is dropped (timeout, cancelled connection) Drop returns the slot to the pool while the shard "
@@ -354,3 +384,97 @@ def _r027(ck, prog, cfg):
                  "from the response to its own request" % (reads[0]["ln"] if reads else "?"), f.where(reads[0]["ln"] if reads else None),
                  detail="results[i] = response only")
     ck.floor("R02.7" + _tag(cfg), n, 2)
+
+
+# ---------------------------------------------------------------------------------------------
+def _field_store(f, field, owner_suffix="SlotState"):
+    """(block, stmt) of every assignment whose left side ends in `.field` of the slot state"""
+    out = []
+    for b, i, st in f.stmts():
+        p_ = st["lhs"].get("p") or []
+        if p_ and isinstance(p_[-1], dict) and p_[-1].get("f") == field and p_[-1].get("o", "").endswith(owner_suffix):
+            out.append((b, i, st))
+    return out
+
+
+def _r028(ck, prog, cfg):
+    RP = "production::response_pool::"
+    send = [f for f in prog.lib_fns() if f.id == RP + "ResponseSlot::<T>::send"]
+    reset = [f for f in prog.lib_fns() if f.id == RP + "ResponseSlot::<T>::reset"]
+    poll = [f for f in prog.lib_fns() if f.id.startswith("<" + RP + "ResponseFuture<T> as ") and f.id.endswith("::poll")]
+    if not (send and reset and poll):
+        ck.anchor_lost("R02.8", "ResponseSlot::send / ResponseSlot::reset / ResponseFuture::poll not found")
+        return
+    send, reset, poll = send[0], reset[0], poll[0]
+    LOCK = r"Mutex::<.*SlotState<.*>>::lock$"
+    # -- send: one critical section; value stored before the wake
+    locks = [(b, t) for b, t in send.calls() if is_callee(t, LOCK)]
+    stores = _field_store(send, "value")
+    wakes = [(b, t) for b, t in send.calls() if is_callee(t, r"std::task::Waker::(wake|wake_by_ref)$")]
+    ck.check(len(locks) == 1 and len(stores) >= 1, "R02.8", "send:one-critical-section" + _tag(cfg),
+             "ResponseSlot::send takes the slot lock %d times / stores the value %d times: storing the reply and taking the waker must be one "
+             "critical section" % (len(locks), len(stores)), send.where(), detail="1 lock, value stored under it")
+    for k, (wb, wt) in enumerate(wakes):
+        ok = any(send.dominates(sb, wb) for sb, _, _ in stores)
+        ck.check(ok, "R02.8", "send:store-before-wake#%d%s" % (k, _tag(cfg)),
+                 "ResponseSlot::send wakes the waiting requester on a path where the reply has not been stored yet: the requester polls, "
+                 "finds nothing, parks again - and nobody wakes it a second time", send.where(wt["ln"]), detail="value store dominates wake")
+    ck.floor("R02.8:wake" + _tag(cfg), len(wakes), 1)
+    # -- reset empties the value on every path
+    def _is_none(f, st):
+        rv = st["rv"]
+        if rv["k"] == "use":
+            sx = src_of_operand(f, rv["a"])
+            rv = sx.rv if sx.kind == "agg" else rv
+        return rv["k"] == "agg" and rv.get("n", "").endswith("Option::None")
+    rst = [(b, i, st) for b, i, st in _field_store(reset, "value") if _is_none(reset, st)]
+    exits = reset.exits()
+    ck.check(bool(rst) and all(any(reset.dominates(b, e) for b, _, _ in rst) for e in exits), "R02.8", "reset:empties-value" + _tag(cfg),
+             "ResponseSlot::reset does not set `value = None` on every path: a reply that arrived after its requester gave up stays in the "
+             "slot and is handed to the next requester that acquires it", reset.where(), detail="value = None dominates return")
+    # -- poll: one critical section; Pending only after the waker is parked under that lock; Ready carries the taken value
+    plocks = [(b, t) for b, t in poll.calls() if is_callee(t, LOCK)]
+    ck.check(len(plocks) == 1, "R02.8", "poll:one-critical-section" + _tag(cfg),
+             "ResponseFuture::poll takes the slot lock %d times: a reply stored between the check for a value and the parking of the waker "
+             "would never wake this requester (lost wake-up)" % len(plocks), poll.where(), detail="1 lock")
+    wst = _field_store(poll, "waker")
+    pend = [(b, i, st) for b, i, st in poll.stmts() if st["rv"]["k"] == "agg" and st["rv"].get("n", "").endswith("Poll::Pending")]
+    guard = plocks[0][1]["dest"]["l"] if plocks else None
+    gdrops = [b for b in poll.reachable_blocks() if poll.term(b)["k"] == "drop" and poll.term(b).get("pl") == {"l": guard}]
+    for k, (pb, _, pst) in enumerate(pend):
+        parked = [sb for sb, _, _ in wst if poll.dominates(sb, pb)]
+        # the guard must still be held when the waker is parked: no drop of the guard dominates the store
+        early = [d for d in gdrops for sb in parked if poll.dominates(d, sb) and d != sb]
+        ck.check(bool(parked) and not early, "R02.8", "poll:park-before-pending#%d%s" % (k, _tag(cfg)),
+                 "ResponseFuture::poll returns Pending on a path where the waker was not stored in the slot under the lock that checked for the "
+                 "value: the shard's reply will not wake this requester", poll.where(pst["ln"]), detail="waker stored under the lock, then Pending")
+    ck.floor("R02.8:pending" + _tag(cfg), len(pend), 1)
+    rdy = [(b, i, st) for b, i, st in poll.stmts() if st["rv"]["k"] == "agg" and st["rv"].get("n", "").endswith("Poll::Ready")]
+    for k, (rb, _, rst_) in enumerate(rdy):
+        src = src_of_operand(poll, rst_["rv"]["ops"][0]) if rst_["rv"].get("ops") else None
+        took = False
+        for b, t in poll.calls():
+            if is_callee(t, r"Option::<.*>::take$") and poll.dominates(b, rb):
+                r = src_of_operand(poll, t["args"][0], through_calls=TRANSPARENT + (r"DerefMut>::deref_mut$", r"Deref>::deref$"))
+                if "value" in (r.fields or ()):
+                    took = True
+        ck.check(took, "R02.8", "poll:ready-takes-value#%d%s" % (k, _tag(cfg)),
+                 "ResponseFuture::poll returns Ready with something other than the value taken out of the slot (a reply left in the slot is "
+                 "delivered a second time to the slot's next user)", poll.where(rst_["ln"]), detail="Ready(value.take())")
+    ck.floor("R02.8:ready" + _tag(cfg), len(rdy), 1)
+    # -- pool: a slot goes back only fresh or reset
+    n = 0
+    for f in prog.lib_fns():
+        if f.file != "src/production/response_pool.rs" or "::tests::" in f.id:
+            continue
+        for b, t in f.calls():
+            if not is_callee(t, r"ArrayQueue::<std::sync::Arc<.*ResponseSlot<.*>>>::push$"):
+                continue
+            n += 1
+            src = src_of_operand(f, t["args"][1])
+            fresh = src.kind == "call" and is_callee(src.term, r"Arc::<.*ResponseSlot<.*>>::new$")
+            was_reset = any(is_callee(tt, r"ResponseSlot::<.*>::reset$") and f.dominates(bb, b) for bb, tt in f.calls())
+            ck.check(fresh or was_reset, "R02.8", "%s:pooled-slot-is-clean#%d%s" % (f.short, n, _tag(cfg)),
+                     "a response slot is pushed into the pool without reset(): a late reply still sitting in it is what its next user receives",
+                     f.where(t["ln"]), detail="fresh" if fresh else "reset() dominates the push")
+    ck.floor("R02.8:push" + _tag(cfg), n, 2)
